@@ -345,7 +345,7 @@ func TestVerifC19SnapshotVsDelete(t *testing.T) {
 						return
 					default:
 					}
-					if err := b.snapshot(1); err != nil && err != ErrSnapshotInProgress && !strings.Contains(err.Error(), "snapshot in progress") {
+					if err := b.snapshot(1); err != nil && err != ErrSnapshotInProgress && err != errSnapshotsDisabled && !strings.Contains(err.Error(), "snapshot in progress") {
 						fail("snapshot: " + err.Error())
 						return
 					}
